@@ -101,7 +101,8 @@ func genScenario(t *rapid.T) *scenario {
 		sc.filler = append(sc.filler, prefix{40<<24 | uint32(i)<<8, 24})
 	}
 	for wi := 0; wi < w; wi++ {
-		n := rapid.IntRange(10, 80).Draw(t, "scriptLen")
+		// mostly short scripts, now and then hundreds of updates per writer (thousands of calls on one filter)
+		n := rapid.OneOf(rapid.IntRange(10, 80), rapid.IntRange(10, 80), rapid.IntRange(10, 80), rapid.SampledFrom([]int{400, 2500})).Draw(t, "scriptLen")
 		// every writer owns pairwise disjoint ranges: its i-th prefix lives inside (20+wi).i.0.0/16
 		np := rapid.IntRange(2, 40).Draw(t, "nprefixes")
 		mine := make([]prefix, np)
